@@ -13,6 +13,10 @@ pub enum A {
     S(usize),
     /// n symbolic ASCII digits, optional leading '-'
     D(usize),
+    /// n symbolic ASCII digits, no sign
+    G(usize),
+    /// 1 symbolic lower-case ASCII letter
+    Lc,
     /// nil bulk string
     Nil,
     /// RESP integer (symbolic)
@@ -31,6 +35,8 @@ fn arg_bytes(a: A) -> Option<Vec<u8>> {
             while i < n { let d = vs::u8(); vs::assume(d >= b'0' && d <= b'9'); v.push(d); i += 1; }
             Some(v)
         }
+        A::G(n) => { let mut v = Vec::with_capacity(n); let mut i = 0; while i < n { let d = vs::u8(); vs::assume(d >= b'0' && d <= b'9'); v.push(d); i += 1; } Some(v) }
+        A::Lc => { let d = vs::u8(); vs::assume(d >= b'a' && d <= b'z'); Some(vec![d]) }
         _ => None,
     }
 }
